@@ -23,8 +23,11 @@ RULE = ('one evaluation = one path = one program shape x one class of payload ch
 BOUNDS = {
     'quick': '\\def with 9 parameter patterns (1-3 undelimited, delimited, mixed, #{ ) x 6 bodies x 4 argument shapes (token, group, nested group, blank-separated); \\newcommand with 1-3 '
              'arguments and optional argument present / absent / empty; nested definitions with ##; \\let before redefinition (in groups, chains); \\csname; \\expandafter; \\gdef vs \\def '
-             'in 0-2 groups; calls in bodies and in arguments; all payload characters symbolic',
-    'thorough': 'all pattern x body x argument-shape combinations; 9-parameter macro; three levels of call nesting',
+             'in 0-2 groups; calls in bodies and in arguments; 6 patterns with delimiters of 2-3 tokens x 3 bodies x 5 argument shapes (incl. the argument containing / ending in a '
+             'proper prefix of the delimiter); 13 further fixed program shapes (macro call inside a delimited argument, optional argument holding a group, 4 arguments with optional, '
+             '\\newcommand*, \\renewcommand changing arity, \\gdef inside a body, redefinition order, \\csname call with argument, \\expandafter chains); all payload characters symbolic',
+    'thorough': 'all pattern x body x argument-shape combinations; every parameter with its own argument shape (4^n per pattern); multi-token delimiters in all 4 wrappings; '
+                '9-parameter macro; three levels of call nesting',
 }
 ASSUMPTIONS = ['normal form of DESIGN.md section 3: non-recursive programs, no delimiter hidden in braces, catcodes unchanged between definition and use, \\edef not used',
                'visible text is compared with blanks removed']
@@ -240,6 +243,13 @@ class Ref:
         """expand the first token of toks once (for \\expandafter)"""
         t = toks[0]
         if t[0] == 'cs':
+            if t[1] == 'expandafter':
+                # expanding \expandafter: the token after the next one is expanded first
+                toks.pop(0)
+                first = toks.pop(0)
+                self.expand_once(toks)
+                toks.insert(0, first)
+                return
             if t[1] == 'csname':
                 toks.pop(0)
                 name = []
@@ -282,6 +292,9 @@ class Ref:
                 self.define(cs[1], ('def', params, body), name == 'gdef')
             elif name in ('newcommand', 'renewcommand'):
                 self.skip_blanks(toks)
+                if toks and is_c(toks[0], '*'):
+                    toks.pop(0)
+                    self.skip_blanks(toks)
                 g = self.read_undelimited(toks)
                 cs = g[0]
                 nargs, opt = 0, None
@@ -334,6 +347,8 @@ class Ref:
 PATTERNS = ['#1', '#1#2', '#1#2#3', '#1.#2', '#1.', '.#1', '[#1]#2', '#1.#2.', '#1#2.']
 BODIES = {1: ['(#1)', '#1#1', 'x#1y', '{#1}', 'x'], 2: ['(#1)(#2)', '#2#1', '#1#2#1', '<#2>', '#1{#2}'], 3: ['(#1)(#2)(#3)', '#3#2#1', '#1#3', '#2#2', '<#1|#2|#3>']}
 ARGSHAPES = ['tok', 'grp', 'nest', 'sp']
+MULTI_PATTERNS = ['#1.,#2', '#1..', '#1.,#2.,', '#1,.#2.', '#1.,;#2', '#1#2.,']      # delimiters of several tokens
+MULTI_SHAPES = ['tok', 'grp', 'partial', 'partial-end', 'partial2']
 
 
 class Gen:
@@ -357,7 +372,13 @@ class Gen:
             return [C('{'), self.p(), C('{'), self.p(), C('}'), C('}')]
         return [C(' '), self.p()]
 
-    def delimited(self, shape):
+    def delimited(self, shape, delim=()):
+        if shape == 'partial':                  # the argument contains the beginning of the delimiter
+            return [self.p()] + list(delim[:-1]) + [self.p()]
+        if shape == 'partial-end':
+            return [self.p(), delim[0]]
+        if shape == 'partial2':
+            return [self.p(), delim[0], self.p()] + list(delim[:-1]) + [self.p()]
         if shape == 'tok':
             return [self.p()]
         if shape == 'grp':
@@ -369,6 +390,15 @@ class Gen:
 
 def prog_def(e, pat, body, shape, wrap):
     g = Gen(e)
+    shapes = list(shape) if isinstance(shape, (list, tuple)) else None
+    nth = [0]
+
+    def sh():
+        if shapes is None:
+            return shape
+        v = shapes[nth[0] % len(shapes)]
+        nth[0] += 1
+        return v
     params = T(pat)
     n = pat.count('#')
     toks = T('\\def\\mya') + params + [C('{')] + T(body) + [C('}')]
@@ -387,9 +417,9 @@ def prog_def(e, pat, body, shape, wrap):
             delim.append(ptoks[k])
             k += 1
         if delim:
-            call += g.delimited(shape) + delim
+            call += g.delimited(sh(), delim) + delim
         else:
-            call += g.arg(shape)
+            call += g.arg(sh())
     tail = [g.p()]
     if wrap == 'group':
         return [C('{')] + toks + call + [C('}')] + T('\\mya') + tail
@@ -459,6 +489,46 @@ def prog_misc(e, which):
     raise AssertionError(which)
 
 
+def prog_misc2(e, which):
+    g = Gen(e)
+    P = g.p
+    if which == 'call-in-delimited-arg':
+        return T('\\def\\mya#1.#2{(#1)(#2)}\\def\\myb#1{<#1>}\\mya\\myb{') + [P()] + T('}.') + [P()] + T('\\myb ') + [P(), P()]
+    if which == 'macro-as-arg':
+        return T('\\def\\mya#1#2{#2#1#2}\\def\\myb{') + [P(), P()] + T('}\\mya\\myb{\\myb ') + [P()] + T('}') + [P()]
+    if which == 'optional-with-group':
+        return T('\\newcommand{\\mya}[2][') + [P()] + T(']{#2/#1}\\mya[{') + [P(), C(' '), P()] + T('}]{') + [P()] + T('}\\mya{') + [P()] + T('}')
+    if which == 'four-args-optional':
+        return T('\\newcommand{\\mya}[4][') + [P()] + T(']{#4#3#2#1}\\mya[') + [P()] + T(']') + [P(), P()] + T('{') + [P(), P()] + T('}\\mya ') + [P(), P(), P()]
+    if which == 'newcommand-star':
+        return T('\\newcommand*{\\mya}[1]{(#1)}\\mya{') + [P()] + T('}\\mya ') + [P()]
+    if which == 'renew-optional':
+        return T('\\newcommand{\\mya}[2][') + [P()] + T(']{#1-#2}\\renewcommand{\\mya}[1]{[#1]}\\mya[') + [P()] + T(']')
+    if which == 'gdef-in-body':
+        return T('\\def\\mya#1{\\gdef\\myb{#1}}{\\mya{') + [P()] + T('}}\\myb{\\mya ') + [P()] + T('}\\myb')
+    if which == 'def-order':
+        return T('\\def\\mya{\\myb ') + [P()] + T('}\\def\\myb{') + [P()] + T('}\\mya\\def\\myb{') + [P()] + T('}\\mya')
+    if which == 'two-token-delimiter':
+        return T('\\def\\mya#1::#2{(#1|#2)}\\mya ') + [P()] + T(':') + [P()] + T('::') + [P(), P()]
+    if which == 'brace-around-param':
+        return T('\\def\\mya#1{{#1}#1{{#1}}}\\mya{') + [P(), P()] + T('}\\mya ') + [P()]
+    if which == 'csname-call-with-arg':
+        return T('\\def\\myxa#1{<#1>}\\def\\nm{xa}\\csname my\\nm\\endcsname{') + [P()] + T('}') + [P()]
+    if which == 'expandafter-over-args':
+        return T('\\def\\mya#1#2{#2#1}\\def\\myb{') + [P()] + T('}\\expandafter\\mya\\expandafter{\\myb}{') + [P()] + T('}')
+    if which == 'call-last-token':
+        return T('\\def\\mya{') + [P()] + T('}') + [P()] + T('\\mya')
+    raise AssertionError(which)
+
+
+MISC2 = ['call-in-delimited-arg', 'macro-as-arg', 'optional-with-group', 'four-args-optional', 'newcommand-star', 'renew-optional', 'gdef-in-body', 'def-order',
+         'two-token-delimiter', 'brace-around-param', 'csname-call-with-arg', 'expandafter-over-args', 'call-last-token']
+
+
+def h_misc2(e, which):
+    _check(e, prog_misc2(e, which), 'misc:' + which)
+
+
 MISC = ['hashhash', 'hashhash2', 'let-before-redef', 'let-chain', 'let-in-group', 'let-args', 'csname', 'csname-macro', 'expandafter-args', 'expandafter-once',
         'gdef-groups', 'def-two-groups', 'renewcommand', 'nine', 'call-depth3', 'hashbrace']
 
@@ -516,6 +586,25 @@ def def_combos(tier):
                     continue
                 for wrap in ('none', 'group', 'inbody', 'inarg'):
                     out.append((pat, body, shape, wrap))
+    for pat in MULTI_PATTERNS:
+        n = pat.count('#')
+        for body in BODIES[n][:3]:
+            for shape in MULTI_SHAPES:
+                for wrap in (('none', 'inarg') if tier == 'quick' else ('none', 'group', 'inbody', 'inarg')):
+                    out.append((pat, body, shape, wrap))
+    if tier != 'quick':
+        # every parameter with its own argument shape
+        for pat in PATTERNS:
+            n = pat.count('#')
+            if n < 2:
+                continue
+            for body in BODIES[n][:3]:
+                for shapes in itertools.product(ARGSHAPES, repeat=n):
+                    if len(set(shapes)) == 1:
+                        continue
+                    if pat.startswith('.') and shapes[0] == 'sp':
+                        continue
+                    out.append((pat, body, list(shapes), 'none'))
     return out
 
 
@@ -545,4 +634,6 @@ def jobs(tier, seed):
         J.append(dict(harness='h_newcommand', params=dict(lo=lo, hi=min(len(nc), lo + chunk), combos=nc), label='newcommand [%d:%d]' % (lo, lo + chunk), no_twin=lo > 0))
     for w in MISC:
         J.append(dict(harness='h_misc', params=dict(which=w), label='misc ' + w, no_twin=True))
+    for w in MISC2:
+        J.append(dict(harness='h_misc2', params=dict(which=w), label='misc ' + w, no_twin=True))
     return J
